@@ -32,7 +32,7 @@ CHECKS = {
          "Every single (thorough: every pair of) deletion / duplication / emptying of each element and attribute of valid messages on all transports, every SigAlg URI x registered key type, every endpoint x method x parameter shape, byte mutations, and SP metadata edits are executed against the real handlers / NewServiceProvider with panics recovered per call; a dying child process is a violation whose replay is the journalled case.",
          "Absence of panics is only shown for the inputs executed; the thorough tier adds all pairs of structural edits and four coverage-guided go test -fuzz targets (decoders, NewServiceProvider, SSO handler, logout / attribute query / callback handlers) with execution-count budgets.", "DESIGN.md §5 C09"),
  "C10": ("fault_enumeration", "fault-injection enumeration over recorded storage-call sequences with fail-closed oracle",
-         "For 15 endpoint scenarios the storage calls of a fault-free run are recorded; every (operation, occurrence) x fault kind is injected singly (and, thorough, in pairs where the handler still calls storage after the first fault), plus unusable configured signature algorithms; after a fault the reply must be HTTP 5xx or non-Success SAML with no user data, signature, persistence or login redirect. Exhaustive over the enumerated space.",
+         "For 15 endpoint scenarios the storage calls of a fault-free run are recorded; every (operation, occurrence) x fault kind is injected singly - on a fresh provider and right after the same provider served the same request fault-free - (and, thorough, in pairs where the handler still calls storage after the first fault), plus unusable configured signature algorithms; after a fault the reply must be HTTP 5xx or non-Success SAML with no user data, signature, persistence or login redirect. Exhaustive over the enumerated space.",
          "Other requests may reach other call sequences; the simulated storage decides which call fails by (operation, k-th occurrence within the request).", "DESIGN.md §5 C10"),
  "C11": ("exploration", "configuration sampling with positive probes: metadata vs observed Issuer / routes / key / refusal behaviour",
          "Random provider configurations x hosts: the served metadata is parsed (expat, library) and compared with what the provider does - Issuer of four reply kinds, advertised locations vs routes (a conformant request to the route must reach the right handler), KeyDescriptor vs certificate endpoint vs key verifying a fresh assertion, WantAuthnRequestsSigned vs actual refusal of unsigned requests on both bindings.",
